@@ -974,6 +974,10 @@ func c11(c *core.Ctx) {
 	c.Borrow("C12", map[string]string{"R4": "R11"}, c12)
 	// "always answers well-formed" for every ResponseWriter: a send must not fail because the writer cannot flush (C01/R12)
 	c.Borrow("C01", map[string]string{"R12": "R12"}, c01)
+	// "an undecodable request message reaches the caller as a non-OK status": what the unary decode callback is
+	// given is the WHOLE request body (a full read of the body itself, not of a truncating view of it) — a body cut
+	// at a limit can decode although the request as sent does not (C07/R3)
+	c.Borrow("C07", map[string]string{"R3": "R13"}, c07)
 
 }
 
